@@ -307,13 +307,19 @@ SubS   == TSub("MyStr", TStr)
 ExtraLeaves == { LitIS, TLit(<<MkBool("T")>>), EnumS, EnumI, SubI, SubS,
                  TDict("dict", TUnion(<<TStr, TInt>>), TFloat), TDict("dict", TUnion(<<TInt, TS("fraction")>>), TInt),
                  \* (mappings of anything to anything: these may be written without type arguments)
-                 TDict("dict", TS("any"), TS("any")), TDict("defaultdict", TS("any"), TS("any")), TDict("ordereddict", TS("any"), TS("any")) }
+                 TDict("dict", TS("any"), TS("any")), TDict("defaultdict", TS("any"), TS("any")), TDict("ordereddict", TS("any"), TS("any")),
+                 \* (a fixed-member tuple as mapping key: what is written for it has to stay a key)
+                 TDict("dict", TTuple(<<TInt, TInt>>), TStr) }
 
 (* C02: the target kinds of the matrix *)
 MatrixTargets ==
   { TS(k) : k \in ScalarKinds } \cup ExtraLeaves \cup
   { TSeq("list", TInt), TSeq("tuplevar", TStr), TSeq("set", TInt), TTuple(<<TInt, TStr>>),
-    TDict("dict", TStr, TInt), TStruct(<< <<"s_a", TInt>> >>), ClsS(TInt), ClsT(TStr), ClsP(TStr) }
+    TDict("dict", TStr, TInt), TStruct(<< <<"s_a", TInt>> >>), ClsS(TInt), ClsT(TStr), ClsP(TStr),
+    TCounter(TStr), TDict("defaultdict", TStr, TInt),
+    \* a positional layout with a field that takes no position (init=False) before one that does
+    TCls("KInitM", << Fld("s_a", TInt, NoDef), FldX("s_b", TStr, DefVal(MkStr("s_empty")), "F", <<"s_b">>, "s_b", "T", "F"),
+                      Fld("s_c", TFloat, NoDef) >>, <<"struct", "tuple">>, "struct") }
 (* C02: the embedding contexts *)
 Contexts(T) ==
   { TSeq("list", T), TSeq("set", T), TDict("dict", TStr, T), TTuple(<<TStr, T>>), TUnion(<<T, TS("bytes")>>),
@@ -379,6 +385,8 @@ CondInnerT == CondInnerQ \cup { TS("complex"), TS("decimal"), TDict("dict", TStr
 TNd(e) == [k |-> "ndarray", e |-> e]
 NdConds == { [k |-> "shape", shape |-> <<2>>], [k |-> "shape", shape |-> <<2, 2>>], [k |-> "shape", shape |-> <<>>],
              [k |-> "bcast", shape |-> <<2, 2>>], [k |-> "bcast", shape |-> <<3>>], [k |-> "nonempty"], [k |-> "pos"],
+             \* (zero-length axes broadcast against 1 and against a missing axis)
+             [k |-> "bcast", shape |-> <<1>>], [k |-> "bcast", shape |-> <<2, 1>>], [k |-> "bcast", shape |-> <<0>>], [k |-> "bcast", shape |-> <<3, 0>>],
              [k |-> "not", c |-> [k |-> "shape", shape |-> <<2>>]] }
 NdLeaves == { TAnn(TNd(e), <<c>>) : e \in {TInt, TFloat}, c \in NdConds } \cup { TNd(TInt), TNd(TFloat), TNd(TS("any")) }
              \cup { TAnn(TSeq("list", TInt), <<[k |-> "shape", shape |-> <<2>>]>>) }
